@@ -56,10 +56,17 @@ def _run_case(k, n1, n2, n3):
         if isinstance(node, ast.Constant) and type(node.value) is int and 12340 <= node.value <= 12349:
             node.value = vals[node.value - 12340]
     q, b, decl, rep = translate(a, "atlas")
-    mapping = {f: str(v) for f, v in zip(formals, vals)}
-    want = [_ref_substitute(ln, mapping) for ln in code]
     got = [ln for ln in q]
-    # the substituted lines appear, in order and contiguously, inside their own block
+    # the C++ text of an integer actual is its decimal text; a negative one may be written in parentheses
+    plain = {f: str(v) for f, v in zip(formals, vals)}
+    if _block_present(got, [_ref_substitute(ln, plain) for ln in code]):
+        return True
+    paren = {f: (str(v) if v >= 0 else "(" + str(v) + ")") for f, v in zip(formals, vals)}
+    return _block_present(got, [_ref_substitute(ln, paren) for ln in code])
+
+
+def _block_present(got, want):
+    "the substituted lines appear, in order and contiguously, inside their own block"
     idx = -1
     for i, ln in enumerate(got):
         if ln == want[0]:
